@@ -1,6 +1,112 @@
 /-
-  C08 — property theorems (stub; to be filled in).
+  C08 — soft-deleted records are invisible and untouched unless Unscoped is requested: the filter core.
+
+  `softDeleteModify` (Model/Where.lean) transcribes `SoftDeleteQueryClause.ModifyStatement` (also reached
+  through the update and delete clauses): regroup the user's conditions into one And when any of them is a
+  single-member Or, append `deleted_at IS NULL` (or the zero-value comparison), set the marker.
 -/
+import GormModel.Lemmas.Where
+import GormModel.Props.C02
 namespace Gorm
+
+/-- the user's conditions after the regrouping step -/
+def regroup (es : List Ex) : List Ex := if es.any Ex.isSingleOr then (mkAnd es).toList else es
+
+theorem softDeleteModify_exprs (f : Atom) (s : WhereState) (h : s.softEnabled = false) :
+    (softDeleteModify false f s).exprs = some (regroup (s.exprs.getD []) ++ [.atom f]) := by
+  simp [softDeleteModify, h, regroup]
+
+theorem regroup_noSingleOr (es : List Ex) : noSingleOr (regroup es) = true := by
+  unfold regroup
+  by_cases h : es.any Ex.isSingleOr = true
+  · simp only [h, if_true]
+    cases es with
+    | nil => simp [mkAnd, noSingleOr]
+    | cons e r =>
+      cases r with
+      | nil =>
+        simp only [mkAnd]
+        by_cases ho : e.isOr = true
+        · simp [ho, noSingleOr, Ex.isSingleOr]
+        · -- impossible: the only member is a single-member Or, hence an Or
+          simp only [List.any_cons, List.any_nil, Bool.or_false] at h
+          cases e <;> simp_all [Ex.isSingleOr, Ex.isOr]
+      | cons e2 r2 => simp [mkAnd, noSingleOr, Ex.isSingleOr]
+  · have h' : es.any Ex.isSingleOr = false := by simpa using h
+    simp only [h', Bool.false_eq_true, if_false]
+    simp only [noSingleOr, List.all_eq_true, Bool.not_eq_true']
+    intro e he
+    have := List.any_eq_false.mp h' e he
+    simpa using this
+
+theorem whereExprs_with_filter (es : List Ex) (f : Atom) :
+    whereExprs (regroup es ++ [.atom f]) = regroup es ++ [.atom f] := by
+  have hn := regroup_noSingleOr es
+  cases hr : regroup es with
+  | nil => simp [whereExprs, unwrapSingleAnd, swapFirst, firstNonSingleOr, Ex.isSingleOr]
+  | cons e r =>
+    rw [hr] at hn
+    have he : e.isSingleOr = false := by
+      simp only [noSingleOr, List.all_cons, Bool.and_eq_true, Bool.not_eq_true'] at hn; exact hn.1
+    cases r with
+    | nil =>
+      show swapFirst (unwrapSingleAnd [e, .atom f]) = _
+      rw [unwrapSingleAnd_of_two, swapFirst_of_head _ _ he]; rfl
+    | cons e2 r2 =>
+      show swapFirst (unwrapSingleAnd (e :: e2 :: (r2 ++ [.atom f]))) = _
+      rw [unwrapSingleAnd_of_two, swapFirst_of_head _ _ he]; rfl
+
+/-- MAIN: whatever conditions the user supplied — none, a leading Or, Not, groups, raw strings — the
+    soft-delete filter is a TOP-LEVEL CONJUNCT of the rendered WHERE: the text means
+    `(user conditions as regrouped) AND filter`.  Hypothesis `whereSound` on the final list (its failure is
+    finding F2: a raw string with a top-level OR under the single-member wrappers the regrouping creates). -/
+theorem C08_filter_conjunct (env : Nat → V3) (es : List Ex) (f : Atom)
+    (h : whereSound (regroup es ++ [.atom f]) = true) :
+    sqlEval env (whereBuild (regroup es ++ [.atom f])) =
+      (listSpec env .and (regroup es)).and (cmpVal env f) := by
+  rw [C02_where_units env _ h, whereExprs_with_filter]
+  rw [listSpec_append env _ _ (regroup_noSingleOr es) (by rfl), unitVal_cmp]
+
+/-- … hence no row whose soft-delete column is set is ever selected, counted, updated or re-deleted -/
+theorem C08_deleted_invisible (env : Nat → V3) (es : List Ex) (f : Atom)
+    (h : whereSound (regroup es ++ [.atom f]) = true)
+    (hsel : sqlEval env (whereBuild (regroup es ++ [.atom f])) = .t) : cmpVal env f = .t := by
+  rw [C08_filter_conjunct env es f h] at hsel
+  exact ((V3.and_eq_t _ _).mp hsel).2
+
+/-- the statement modifier applied to a chain's WHERE state yields exactly that list -/
+theorem C08_modify_shape (es : List Ex) (f : Atom) :
+    (softDeleteModify false f { exprs := if es.isEmpty then none else some es, softEnabled := false }).exprs
+      = some (regroup es ++ [.atom f]) := by
+  rw [softDeleteModify_exprs _ _ rfl]
+  cases es <;> simp [regroup]
+
+/-- Unscoped: no filter, nothing regrouped -/
+theorem C08_unscoped (f : Atom) (s : WhereState) : softDeleteModify true f s = s := by
+  simp [softDeleteModify]
+
+/-- the marker makes the modifier idempotent (query clauses may be added more than once per statement) -/
+theorem C08_modify_once (un : Bool) (f : Atom) (s : WhereState) :
+    softDeleteModify un f (softDeleteModify un f s) = softDeleteModify un f s := by
+  cases un <;> by_cases h : s.softEnabled = true <;> simp [softDeleteModify, h]
+
+/-- FINDING F2 (kernel-checked): `db.Or("a OR b")` on a soft-delete model — the regrouping wraps the single Or in a
+    single-member And, `buildExprs` looks through one wrapper only, the raw string is written bare:
+    `a OR b AND deleted_at IS NULL`; a soft-deleted row satisfying `a` is selected -/
+theorem C08_leading_or_counterexample :
+    let raw := Ex.raw ['a', ' ', 'O', 'R', ' ', 'b'] false "a OR b" [(.and, 0, .atom 0 true "a"), (.or, 0, .atom 1 true "b")]
+    let f : Atom := { col := "deleted_at", kind := .eq, val := .nil, id := 2 }
+    let env := envOf [.t, .f, .f]   -- a holds, b fails, the row IS soft-deleted (deleted_at IS NULL is false)
+    whereSound (regroup [.or [raw]] ++ [.atom f]) = false ∧
+    sqlEval env (whereBuild (regroup [.or [raw]] ++ [.atom f])) = .t ∧ cmpVal env f = .f := by
+  decide
+
+/-- non-vacuity: a chain with a leading Or of a map, a Not and a raw string satisfies the hypothesis -/
+example :
+    whereSound (regroup (chainExprs [
+      (.or_, .fields [{ col := "a", kind := .eq, val := .scalar, id := 0 }, { col := "b", kind := .eq, val := .nil, id := 1 }]),
+      (.not_, .col { col := "c", kind := .gt, val := .scalar, id := 4 }),
+      (.or_, .raw ['x', ' ', 'O', 'R', ' ', 'y'] false "x OR y" [(.and, 0, .atom 2 true "x"), (.or, 0, .atom 3 true "y")])])
+      ++ [.atom { col := "deleted_at", kind := .eq, val := .nil, id := 5 }]) = true := by decide
 
 end Gorm
